@@ -17,7 +17,7 @@ import (
 
 type countedLoop struct {
 	loop  *core.Loop
-	phi   *ssa.Phi
+	phi   ssa.Value // the loop variable as the body sees it: the header phi, or phi+1 of a `for i := range x` loop
 	init  ssa.Value
 	bound ssa.Value
 	op    token.Token // comparison under which the body runs: phi op bound
@@ -54,7 +54,7 @@ func countedLoops(fn *ssa.Function) []*countedLoop {
 					if p, isPhi := b.X.(*ssa.Phi); isPhi && p.Block() == l.Header {
 						if k, isK := core.ConstInt(b.Y); isK && k == 1 {
 							if init, isK := core.ConstInt(phiInit(p, l)); isK && init == -1 {
-								out = append(out, &countedLoop{l, p, ssaConstInt(0), y, op, 1})
+								out = append(out, &countedLoop{l, b, ssaConstInt(0), y, op, 1})
 							}
 						}
 					}
@@ -335,7 +335,29 @@ func RuleG7(c *Ctx) {
 		s := &spawnSite{kind: "go", at: g, parent: fn, top: fn, target: tgt, closure: mc}
 		oc := &ownCtx{site: s, loops: map[*ssa.Function][]*core.Loop{}, seen: map[ssa.Value]bool{}}
 		seenCells := map[ssa.Value]bool{}
+		seenVals := map[ssa.Value]bool{}
 		for _, a := range workCalls[0].Common().Args {
+			// by-value form: go func(from, to int) { work(from, to) }(start, end) — the values are fixed at the spawn
+			if p, isParam := a.(*ssa.Parameter); isParam {
+				bound := false
+				for pi, q := range tgt.Params {
+					if q == p && pi < len(g.Call.Args) {
+						v := g.Call.Args[pi]
+						if seenVals[v] {
+							okArgs = false // same value passed twice (start == end)
+						}
+						seenVals[v] = true
+						// computed in this iteration, not a value carried over from another one
+						if ins, isIns := v.(ssa.Instruction); isIns && cl.loop.Blocks[ins.Block()] {
+							bound = true
+						}
+					}
+				}
+				if !bound {
+					okArgs = false
+				}
+				continue
+			}
 			u, isLoad := a.(*ssa.UnOp)
 			if !isLoad {
 				okArgs = false
